@@ -47,6 +47,7 @@ const prelude = `(set-option :produce-models true)
 (assert (forall ((s Str)) (! (= (ssub s 0 (slen s)) s) :pattern ((ssub s 0 (slen s))))))
 (assert (forall ((a Str) (b Str)) (! (= (slen (sconcat a b)) (+ (slen a) (slen b))) :pattern ((sconcat a b)))))
 (assert (forall ((a Str) (b Str) (k Int)) (! (= (sat (sconcat a b) k) (ite (< k (slen a)) (sat a k) (sat b (- k (slen a))))) :pattern ((sat (sconcat a b) k)))))
+(assert (forall ((a Str) (b Str)) (! (and (=> (= (slen a) 0) (= (sconcat a b) b)) (=> (= (slen b) 0) (= (sconcat a b) a))) :pattern ((sconcat a b)))))
 (assert (forall ((a (Array Int Int)) (o Int) (l Int)) (! (=> (>= l 0) (= (slen (ofbytes a o l)) l)) :pattern ((ofbytes a o l)))))
 (assert (forall ((a (Array Int Int)) (o Int) (l Int) (k Int)) (! (=> (and (<= 0 k) (< k l)) (= (sat (ofbytes a o l) k) (select a (+ o k)))) :pattern ((sat (ofbytes a o l) k)))))
 (assert (forall ((s Str)) (! (= (slen (tolower s)) (slen s)) :pattern ((tolower s)))))
@@ -371,6 +372,14 @@ func discharge(res *FuncResult, opts VerifyOpts, sem chan struct{}) {
 		defer func() { <-sem }()
 		return runPortfolio(x.smtFor(obls, opts.TimeoutS*1000), opts.TimeoutS, opts.Seed, opts.Solvers, needAll)
 	}
+	runT := func(obls []*Obligation, t int) SolverResult {
+		sem <- struct{}{}
+		defer func() { <-sem }()
+		if t > opts.TimeoutS {
+			t = opts.TimeoutS
+		}
+		return runPortfolio(x.smtFor(obls, t*1000), t, opts.Seed, opts.Solvers, false)
+	}
 	// batch first, then bisect
 	var solve func(obls []*Obligation)
 	var wg sync.WaitGroup
@@ -384,7 +393,7 @@ func discharge(res *FuncResult, opts VerifyOpts, sem chan struct{}) {
 			obls[0].Result = &r
 			return
 		}
-		r := run(obls, false)
+		r := runT(obls, 3)
 		if r.Status == "unsat" {
 			for _, o := range obls {
 				rr := r
@@ -425,6 +434,24 @@ func discharge(res *FuncResult, opts VerifyOpts, sem chan struct{}) {
 		}(o)
 	}
 	wg.Wait()
+	// diagnosis: a failed postcondition is re-checked per return statement
+	if os.Getenv("GOVC_DIAG") != "" {
+		for _, o := range res.Obls {
+			if o.Kind != "post" || obligationOK(o) || o.Result == nil {
+				continue
+			}
+			var bad []string
+			for _, ri := range x.retInfos {
+				o2 := *o
+				o2.PC = And(o.PC, ri.pc)
+				r := run([]*Obligation{&o2}, false)
+				if r.Status != "unsat" {
+					bad = append(bad, fmt.Sprintf("line %d (%s)", x.P.Fset.Position(ri.pos).Line, r.Status))
+				}
+			}
+			o.Note = "fails on return paths: " + strings.Join(bad, ", ")
+		}
+	}
 	res.Seconds = time.Since(t0).Seconds()
 	if opts.Keep {
 		for _, o := range res.Obls {
